@@ -122,6 +122,35 @@ OptCost(t, off0, w0, blockEnd, wnd, minm, maxm) ==
   IN IF n = 0 THEN 0 ELSE OptAcc(t, blockEnd - 1, lim, off0, b0)
 
 (***************************************************************************)
+(* An upper bound that is affordable on long blocks (C11): a WITNESS parse *)
+(* of the same block, proposed by the harness (a greedy parse computed in  *)
+(* Go - untrusted).  TLC checks that the witness is one of the parses the  *)
+(* optimum ranges over (it expands to the block, every match lies in       *)
+(* window and buffer and has an admissible length); then a minimum-cost    *)
+(* block cannot cost more than the witness.  An invalid witness proves     *)
+(* nothing and is reported as a harness problem (C00), never as a          *)
+(* violation.                                                              *)
+(***************************************************************************)
+RECURSIVE WitSeqsOk(_, _, _, _, _)
+WitSeqsOk(st, seqs, i, pos0, blockEnd) ==
+  IF i > Len(seqs) THEN TRUE
+  ELSE LET s == seqs[i]
+           pos == pos0 + Lit(s)
+       IN /\ IsSeqRec(s)
+          /\ Off(s) >= 1 /\ Off(s) <= st.c.Wnd /\ pos - Off(s) >= st.off0
+          /\ MLen(s) >= st.c.mm /\ MLen(s) <= st.c.xm
+          /\ pos + MLen(s) <= blockEnd
+          /\ WitSeqsOk(st, seqs, i + 1, pos + MLen(s), blockEnd)
+
+WitnessValid(st, alt, n) ==
+  LET h == SubSeq(st.inp, 1, st.w) IN
+  /\ LitSum(alt.seqs) <= Len(alt.lits)
+  /\ BlockLen(alt.seqs, alt.lits) = n
+  /\ WitSeqsOk(st, alt.seqs, 1, st.w, st.w + n)
+  /\ ExpandDefined(h, alt.seqs, alt.lits)
+  /\ Expand(h, alt.seqs, alt.lits) = SubSeq(st.inp, 1, st.w + n)
+
+(***************************************************************************)
 (* Rules per event.                                                        *)
 (***************************************************************************)
 ErrOk(e, S) == e.err \in S
@@ -171,9 +200,17 @@ ParseRules(st, e, heavy) ==
                 LPM(st.inp, st.off0, q, scanEnd) < c.mm>>,
        (* C11: no cheaper parse of the same block exists *)
        <<"C11.cost_optimal",
-         ("C11" \in heavy /\ c.kind = "OSAP" /\ e.flags = 0)
+         ("C11" \in heavy /\ c.kind = "OSAP" /\ e.flags = 0 /\ e.n <= 80)
            => BlockCost(e.seqs, e.lits) =
-                OptCost(st.inp, st.off0, st.w, blockEnd, c.Wnd, c.mm, c.xm)>>
+                OptCost(st.inp, st.off0, st.w, blockEnd, c.Wnd, c.mm, c.xm)>>,
+       (* long blocks: the cubic optimum is out of reach; a minimum-cost    *)
+       (* parse never costs more than a valid witness parse                 *)
+       <<"C00.witness_invalid",
+         ("C11" \in heavy /\ c.kind = "OSAP" /\ e.flags = 0 /\ "alt" \in DOMAIN e)
+           => WitnessValid(st, e.alt, e.n)>>,
+       <<"C11.not_above_witness",
+         ("C11" \in heavy /\ c.kind = "OSAP" /\ e.flags = 0 /\ "alt" \in DOMAIN e /\ WitnessValid(st, e.alt, e.n))
+           => BlockCost(e.seqs, e.lits) <= BlockCost(e.alt.seqs, e.alt.lits)>>
      } \cup SeqsRulesAcc(st, e.seqs, 1, st.w, blockEnd, scanEnd, heavy, {}))
 
 BufRange(st, off) == off - st.off0   \* index into the retained data
